@@ -4,11 +4,22 @@ import shapes as SH
 
 
 def nid(n):
-    return int(n.id[1:])
+    return n._vid
 
 
-def rotate_impl(t, p):
-    root, table = SH.build_nodes(t)
+def make_node(collide):
+    """nodes whose identity is tracked by _vid; with `collide` several nodes share one id string (as clone() twins do)"""
+    from mathy_core.tree import BinaryTreeNode
+
+    def mk(i):
+        n = BinaryTreeNode(id=("same" if collide == 1 else f"n{i % 2}") if collide else f"n{i}")
+        n._vid = i
+        return n
+    return mk
+
+
+def rotate_impl(t, p, collide=0):
+    root, table = SH.build_nodes(t, make_node(collide))
     node = table[SH.sub(t, p)[1]]
     parent = node.parent
     grand = parent.parent if parent is not None else None
@@ -47,20 +58,23 @@ def run(ctx):
                   "oracle: in-order id sequence unchanged; full link audit (every child's parent is its parent, no node twice, root without parent); "
                   "node.parent = old grandparent; grandparent's child on the parent's old side = node; rotating the root changes nothing"]
     shapes = [SH.label(s)[0] for s in SH.shapes_upto(nmax)]
-    cases = [(t, p) for t in shapes for p in SH.paths(t)]
+    cases = [(t, p, 0) for t in shapes for p in SH.paths(t)]
+    # node ids are not identities: clone() twins share an id. Same shapes with colliding id strings.
+    cases += [(t, p, 1 + (k % 2)) for k, t in enumerate(shapes) if SH.size(t) <= nmax - 1 for p in SH.paths(t)]
     for _ in range(ctx.n(80, 800)):
         t = SH.label(SH.random_shape(rnd, rnd.randint(8, 60)))[0]
         ps = SH.paths(t)
-        cases += [(t, rnd.choice(ps)) for _ in range(6)]
+        cases += [(t, rnd.choice(ps), rnd.randint(0, 2)) for _ in range(6)]
     res.dist["exhaustive_upto_nodes"] = nmax
-    model = common.drive([f"BTROT {p or '-'} {SH.text(t)}" for t, p in cases]) if ctx.driver_ok else [None] * len(cases)
-    for (t, p), m in zip(cases, model):
+    model = common.drive([f"BTROT {p or '-'} {SH.text(t)}" for t, p, _ in cases]) if ctx.driver_ok else [None] * len(cases)
+    for (t, p, collide), m in zip(cases, model):
         res.evaluations += 1
-        inp = dict(shape=SH.text(t), node=p)
+        inp = dict(shape=SH.text(t), node=p, ids=["distinct", "all equal", "two alternating"][collide])
         if p:
-            res.nontrivial.add((SH.text(t), p))
+            res.nontrivial.add((SH.text(t), p, collide))
+        res.count(inp["ids"])
         try:
-            after, errs = rotate_impl(t, p)
+            after, errs = rotate_impl(t, p, collide)
         except Exception as e:
             res.failures.append(dict(**{"class": "rotate-raises"}, input=inp, detail=repr(e)))
             continue
@@ -82,7 +96,7 @@ def replay(payload):
     print("finding:", f.get("class"), f.get("detail"))
     inp = f["input"]
     t = SH.parse_text(inp["shape"])
-    after, errs = rotate_impl(t, inp["node"])
+    after, errs = rotate_impl(t, inp["node"], ["distinct", "all equal", "two alternating"].index(inp.get("ids", "distinct")))
     print("before:", inp["shape"], "rotate node at", inp["node"] or "root")
     print("after :", SH.text(after), errs)
     print("model :", common.drive([f"BTROT {inp['node'] or '-'} {inp['shape']}"]))
